@@ -504,7 +504,7 @@ func escapeText(s string) string {
 		if i+1 < len(s) && s[i] == '{' && s[i+1] == '{' {
 			end := strings.Index(s[i+2:], "}}")
 			if end != -1 {
-				b.WriteString(s[i : i+2+end+2])
+				b.WriteString(escapeMustache(s[i : i+2+end+2]))
 				i += 2 + end + 2
 				continue
 			}
@@ -520,6 +520,37 @@ func escapeText(s string) string {
 			b.WriteByte(s[i])
 		}
 		i++
+	}
+	return b.String()
+}
+
+// escapeMustache keeps a {{ ... }} expression readable but safe to parse again: a '<' is only
+// escaped where the HTML parser would read it as the start of a tag, comment or declaration
+// (before a letter, '/', '!' or '?'), and an '&' only where it would be read as a character
+// reference. Operators such as "a < b" or "a && b" stay as they are.
+func escapeMustache(m string) string {
+	if !strings.ContainsAny(m, "<&") {
+		return m
+	}
+	var b strings.Builder
+	b.Grow(len(m) + 8)
+	for i := 0; i < len(m); i++ {
+		switch m[i] {
+		case '<':
+			if i+1 < len(m) && (m[i+1] == '/' || m[i+1] == '!' || m[i+1] == '?' || (m[i+1] >= 'a' && m[i+1] <= 'z') || (m[i+1] >= 'A' && m[i+1] <= 'Z')) {
+				b.WriteString("&lt;")
+			} else {
+				b.WriteByte('<')
+			}
+		case '&':
+			if ref := charRefRe.FindString(m[i:]); ref != "" && html.UnescapeString(ref) != ref {
+				b.WriteString("&amp;")
+			} else {
+				b.WriteByte('&')
+			}
+		default:
+			b.WriteByte(m[i])
+		}
 	}
 	return b.String()
 }
